@@ -339,9 +339,20 @@ func (w *World) oracleQB(mx *actors.ScriptedMX, plan *actors.MXPlan, isRemote bo
 				wf = wireForm(r, false)
 			}
 			definite, maybe, attempts := 0, 0, 0
+			permAt := -1
 			for _, tx := range recv {
 				if !bytes.Contains(tx.Data, []byte(marker)) {
 					continue
+				}
+				// retry discipline seen from the server: a recipient whose RCPT
+				// was refused permanently in a transaction of this message that
+				// went on to transfer content (so the client had read the
+				// refusal) is not named again in a later transaction of it
+				if permAt >= 0 && (contains(tx.RcptsAll, wf) || contains(tx.RcptsAll, r)) {
+					s.Violate("C01/retry-after-permanent/"+kind, "%s: %s was refused permanently at RCPT in transaction #%d and named again in transaction #%d", m.ID, r, permAt, tx.N)
+				}
+				if permAt < 0 && (contains(tx.RcptPerm, wf) || contains(tx.RcptPerm, r)) {
+					permAt = tx.N
 				}
 				if !contains(tx.Rcpts, wf) && !contains(tx.Rcpts, r) {
 					continue
